@@ -36,7 +36,8 @@ impl GenCfg {
 pub const STRINGS: &[&str] = &[
     "", "a", "b", "c", "k", "key", "Key", "KEY", "ke", "key2", "v", "abc", "ABC", "é", "日本", "😀", "a😀b",
     "a\"b", "a\\b", "line\nbreak", "tab\there", " lead", "trail ", "/", "</script>", "null", "true", "0", "10",
-    "-1", "\u{7f}", "\u{80}", "\u{7ff}", "\u{800}", "\u{ffff}", "\u{10000}", "\u{1}", "ß", "ǅ",
+    "-1", "\u{7f}", "\u{80}", "\u{7ff}", "\u{800}", "\u{ffff}", "\u{10000}", "\u{1}", "ß", "ǅ", "\u{10ffff}", "\u{10fc00}", "\u{d7ff}", "\u{e000}",
+    "x\u{10ffff}\n",
 ];
 
 pub const KEYS: &[&str] = &[
@@ -217,4 +218,28 @@ pub fn case_variant(r: &mut Rng, k: &str) -> String {
             }
         })
         .collect()
+}
+
+/// A narrow, deep document: `depth` nested containers of width 1-2 with a scalar at the bottom.
+/// Decoders that do work per level (or worse) only show it on shapes like this.
+pub fn gen_deep_narrow(r: &mut Rng, depth: usize) -> MVal {
+    let cfg = GenCfg::small();
+    let mut v = gen_scalar(r, &cfg);
+    for _ in 0..depth {
+        v = if r.chance(1, 2) {
+            let mut xs = vec![v];
+            if r.chance(1, 3) {
+                xs.insert(0, gen_scalar(r, &cfg));
+            }
+            MVal::Arr(xs)
+        } else {
+            let mut m = BTreeMap::new();
+            m.insert(gen_key(r, &cfg), v);
+            if r.chance(1, 3) {
+                m.insert(gen_key(r, &cfg), gen_scalar(r, &cfg));
+            }
+            MVal::Obj(m)
+        };
+    }
+    v
 }
